@@ -98,7 +98,10 @@ Section Content.
         (* docx_reader.comments: [] when there is no comments part *)
         celems <- match files_of_type fs s_comments with
                   | [] => Ok []
-                  | cf :: _ => r <- part_root a fs o cf ;; Ok (kids_of r)
+                  | cf :: _ =>
+                      r <- part_root a fs o cf ;;
+                      (* XML comments / PIs between the entries are skipped *)
+                      Ok (filter (fun k => match k with AE _ _ => true | AX _ => false end) (kids_of r))
                   end ;;
         if negb (Nat.eqb (length ranges) (length celems)) then Ok None
         else
